@@ -1109,7 +1109,13 @@ impl<'a> GeneratorState<'a> {
 
     fn generate_strobe_statement(&mut self, expr: &Expr, pos: usize) -> Result<(), Error> {
         match expr {
-            Expr::Identifier(name, _) => {
+            Expr::Identifier(name, sub) => {
+                // The register itself is written, never an element of it
+                if !matches!(**sub, Expr::Nothing) {
+                    return Err(self
+                        .compiler_state
+                        .syntax_error("Strobe only works on memory pointers", pos));
+                }
                 let v = self.checked_variable(name, pos)?;
                 match v.var_type {
                     VariableType::CharPtr => {
